@@ -239,7 +239,7 @@ theorem baseNextToken_eof_only_at_end (nl : Bool) (cs : List Bytes) (s : LS)
   simp only [apply_ite Prod.fst]
   repeat' (first
     | (apply type_ite (P := fun t => t = TokType.eof → s.rest = []) <;> intro _)
-    | (intro h; simp only [mkTok] at h; first | cases h | skip))
+    | (intro h; simp only [mkTok] at h; first | cases h | (split at h <;> cases h) | skip))
   · rename_i h; simpa using h
   · rename_i h; exact absurd h (lookupIdent_ne_eof _)
   · rename_i h
